@@ -401,7 +401,8 @@ def write_evidence(prop: str, tier: str, seed: int, t0: float, scen: dict, stats
             "context_switches": agg.get("switches", 0),
         },
         "faults_fired": agg.get("faults", {}) if prop != "C11" else {
-            "hashseed": len(set(hashseeds)), "presentation(reorder/renest)": agg.get("presentations", 0)},
+            "hashseed": len(set(hashseeds)), "presentation(reorder/renest)": agg.get("presentations", 0),
+            "preempt": agg.get("switches", 0)},
         "distinct_interleavings": len(inter),
         "interleaving_measure": "digest of the full recorded schedule (who ran, at which op and line each switch happened) of a population round with at least one switch inside an operation",
         "ops_executed": agg.get("ops", {}),
@@ -438,7 +439,7 @@ RULES = {
     "C14": "scenario = seeded abstract world (1-3 mixed graphs n<=7, acyclic or cyclic, isolated and bidirected-only nodes) + per-round scripts of the 15 surgery operations for 2-4 callers + evolve steps; each scenario is executed by 4 worker interpreters (distinct PYTHONHASHSEED, distinct construction history) and in each as 3 populations (sequential baseline, interleaved, interleaved+aborts); evaluations = scenario executions; a (scenario, worker) pair is non-trivial iff at least one context switch or abort landed inside an operation (at a y0 line event, not at an operation boundary); distinct = distinct (scenario id, worker id)",
     "C02": "scenario = seeded ADMG(s) n<=6 + 1-3 queries (X,Y disjoint non-empty) whose set/Query/Identification objects are shared by 2-4 callers running identify_outcomes/identify (and read-only surgery ops) ; executed by 4 workers (distinct hash seed + construction history) x 2 populations (sequential, interleaved); every third scenario id is instead a *sweep* scenario: one caller, no pre-emption, up to 70 distinct (X, Y) queries (1-3 treatments, 1-3 outcomes) on one ADMG n<=7, executed by the same 4 workers, which buys volume for the reference-model and cross-interpreter oracles; non-trivial iff a context switch landed inside an operation (sweep scenarios never are); distinct = distinct (scenario id, worker id)",
     "C04": "scenario = seeded acyclic ADMG(s) n<=7 (plus nodes added by evolve steps) + per-round scripts of are_d_separated(a, b | C) queries (35 % asked in both argument orders; conditioning sets biased toward endpoints of bidirected edges and their descendants; conditions passed as set/frozenset/list/tuple/None/list with duplicates) and read-only surgery ops for 2-4 callers on the shared graph objects, evolve steps between rounds; executed by 4 workers (distinct PYTHONHASHSEED, distinct construction history and constructor) x 3 populations (sequential baseline, interleaved, interleaved+aborts); every third scenario id is instead a *sweep* scenario (one caller, no pre-emption, 60 queries on one ADMG n<=8, same 4 workers); non-trivial iff a context switch or abort landed inside an operation (sweep scenarios never are); distinct = distinct (scenario id, worker id)",
-    "C11": "case = seeded expression recipe (depth<=4, <=6 fresh variable names) with 2-5 presentation permutations and an ordering; executed by 4 workers with distinct PYTHONHASHSEED; non-trivial iff at least two different iteration orders of the case's variable set were actually observed among the workers that ran it; distinct = distinct case id",
+    "C11": "case = seeded expression recipe (depth<=4, <=6 fresh variable names) with 2-5 presentation permutations and an ordering; executed by 4 workers with distinct PYTHONHASHSEED; non-trivial iff at least two different iteration orders of the case's variable set were actually observed among the workers that ran it; every fifth case id is instead a *concurrent-callers* scenario: 2-3 callers canonicalise related expressions (shared names, permuted presentations, near-duplicates, different orderings) under the seeded baton scheduler (uniform / PCT / hot policies), and every result must equal the one of the sequential pass in the same interpreter; distinct = distinct case id",
 }
 ASSUMPTIONS = {
     "C14": [
@@ -459,6 +460,7 @@ ASSUMPTIONS = {
     "C11": [
         "hash seeds are sampled (4 per case), not enumerated",
         "presentations are restricted to the three differences the statement names",
+        "concurrent-callers scenarios: pre-emption granularity is one y0 source line",
         "seeded sampling: a clean batch is evidence, not proof",
     ],
 }
